@@ -1,6 +1,7 @@
 package checks
 
 import (
+	"context"
 	"errors"
 	"fmt"
 	"strconv"
@@ -271,7 +272,13 @@ func owSeqScenario(p owParams) func() {
 			}
 		}
 		c1 := mk()
+		if p.state == "first-pre-cancelled" {
+			c1.Cancel(context.Canceled)
+		}
 		w.Start(c1)
+		if p.state == "first-cancelled-during" {
+			mc.GoLow("cancel", func() { c1.Cancel(context.Canceled) })
+		}
 		mc.Quiesce()
 		switch p.state {
 		case "then-reset":
@@ -307,7 +314,7 @@ func owSeqScenario(p owParams) func() {
 				if e > 1 {
 					fail("C06/delivery-count", key, "%s: node %d handled one-way call %d %d times", name, id, i+1, e)
 				}
-				if e == 0 && c.Returned && c.Err == nil && (i == 0 || !p.nsw) && !(i == 1 && strings.HasSuffix(p.state, "-during-second")) {
+				if e == 0 && c.Returned && c.Err == nil && (i == 0 || !p.nsw) && !(i == 1 && strings.HasSuffix(p.state, "-during-second")) && !(i == 0 && strings.HasPrefix(p.state, "first-")) {
 					fail("C06/delivery-count", key, "%s: node %d is reachable, call %d returned without error, but its message was never handled", name, id, i+1)
 				}
 			}
@@ -361,7 +368,7 @@ func c06Instances(tier string) []Instance {
 	}
 	for _, kind := range []string{"Unicast", "Multicast", "MulticastPerNodeArg"} {
 		for _, nsw := range []bool{false, true} {
-			for _, st := range []string{"then-nothing", "then-reset", "then-restart", "reset-during-second", "restart-during-second"} {
+			for _, st := range []string{"then-nothing", "then-reset", "then-restart", "reset-during-second", "restart-during-second", "first-pre-cancelled", "first-cancelled-during"} {
 				p := owParams{kind: kind, nsw: nsw, state: st}
 				b := 1
 				if thorough(tier) {
@@ -376,7 +383,7 @@ func c06Instances(tier string) []Instance {
 
 func init() {
 	register(&Check{ID: "C06",
-		Rule:        "(a) n in 1..3 x every skip subset of the per-node function (node-distinct payloads) x 9 call variants that take one + 6 plain variants x threshold {targeted, targeted+1}: each server's received payload, delivery count and the call's completion / counts are compared with f(request, i); (b) unicast / multicast variants x send-waiting on/off x node state {idle, handlers blocked forever, endpoints down, transport window full with earlier messages}: the call must have returned at the first quiescent point without any handler returning (and, with no-send-waiting, without the connection); (c) two one-way calls with {nothing, a stream reset, a crash and restart of every node} while the client is idle in between - or striking as an adversary thread during the second call -, back-off timers fired to a horizon of 4 rounds: every message is handled at most once, and exactly once when the call reported no error; all schedules within the deviation bound; an outcome is (instance, returned, deliveries)",
+		Rule:        "(a) n in 1..3 x every skip subset of the per-node function (node-distinct payloads) x 9 call variants that take one + 6 plain variants x threshold {targeted, targeted+1}: each server's received payload, delivery count and the call's completion / counts are compared with f(request, i); (b) unicast / multicast variants x send-waiting on/off x node state {idle, handlers blocked forever, endpoints down, transport window full with earlier messages}: the call must have returned at the first quiescent point without any handler returning (and, with no-send-waiting, without the connection); (c) two one-way calls with {nothing, a stream reset, a crash and restart of every node} while the client is idle in between - or striking as an adversary thread during the second call, or the first call's context ending before / during it -, back-off timers fired to a horizon of 4 rounds: every message is handled at most once, and exactly once when the call reported no error; all schedules within the deviation bound; an outcome is (instance, returned, deliveries)",
 		Gen:         c06Instances,
 		Assumptions: []string{"'without waiting' is decided untimed: at quiescence, before any gate is opened or timer fired", "transport is the fakegrpc model with window 1 for the one-way family"},
 	})
@@ -387,7 +394,7 @@ func init() {
 // the request payload (per-node converted where declared), and the caller gets the declared type.
 func init() {
 	register(&Check{ID: "C17",
-		Rule: "dynamic binding: each of the 27 generated zorums call variants the harness can drive is invoked on 2 nodes against puppet servers built from the (regenerated) stubs; the handler entered, the payload it receives and the static type of the result are compared with the method's declaration; each two-way variant is also run with node 2's handler failing (stream handlers: right after one or two replies): every reply sent reaches the quorum function and the caller is told node 2's error; an outcome is the instance",
+		Rule: "dynamic binding: each of the 27 generated zorums call variants the harness can drive is invoked on 2 nodes against puppet servers built from the (regenerated) stubs; the handler entered, the payload it receives and the static type of the result are compared with the method's declaration; each per-node variant is also run with a per-node function that excludes node 1, and each two-way variant with node 2's handler failing (stream handlers: right after one or two replies): every reply sent reaches the quorum function and the caller is told node 2's error; an outcome is the instance",
 		Gen: func(tier string) []Instance {
 			kinds := []string{"GRPCCall", "QuorumCall", "QuorumCallPerNodeArg", "QuorumCallCustomReturnType", "QuorumCallCombo",
 				"QuorumCallAsync", "QuorumCallAsync2", "QuorumCallAsyncPerNodeArg", "QuorumCallAsyncCustomReturnType", "QuorumCallAsyncCombo",
@@ -407,6 +414,11 @@ func init() {
 				}
 				p := pnParams{kind: k, n: 2}
 				out = append(out, Instance{Name: "binding-dynamic/" + k, Bound: 0, Root: pnScenario(p)})
+				if world.HasPerNode(k) {
+					// the per-node function excludes node 1 (returns nil): the typed nil must survive the stub's conversion
+					ps := pnParams{kind: k, n: 2, skip: []int{1}}
+					out = append(out, Instance{Name: "binding-dynamic/" + k + "/per-node-function-skips-node-1", Bound: 0, Root: pnScenario(ps)})
+				}
 				if world.IsStream(k) {
 					for _, replies := range []int{1, 2} {
 						out = append(out, Instance{Name: fmt.Sprintf("binding-dynamic/%s/node-2-fails/k=%d", k, replies), Bound: 1, Root: stubErrorScenario(k, replies)})
